@@ -1051,6 +1051,49 @@ func (m *m09) invariants() error {
 			return pbt.Failf("C09/owner-index", "tokens of owner %q: [%s], model [%s]", a, strings.Join(got, ","), strings.Join(want, ","))
 		}
 	}
+	// the same through the keeper getters other modules use: GetTokens(owner), GetOwner, HasToken
+	for _, a := range append(addrs, "") {
+		var acc sdk.AccAddress
+		if a != "" {
+			acc = sdk.MustAccAddressFromBech32(a)
+		}
+		var got []string
+		for _, ti := range k.GetTokens(c.Ctx, acc) {
+			got = append(got, ti.GetSymbol())
+		}
+		want := append([]string{}, owned[a]...)
+		if a == "" {
+			want = append([]string{}, m.order...)
+		}
+		sort.Strings(got)
+		sort.Strings(want)
+		if strings.Join(got, ",") != strings.Join(want, ",") {
+			return pbt.Failf("C09/owner-index", "keeper GetTokens(%q): [%s], model [%s]", a, strings.Join(got, ","), strings.Join(want, ","))
+		}
+	}
+	for _, sym := range m.order {
+		t := m.bySym[sym]
+		if o, err := k.GetOwner(c.Ctx, t.symbol); err != nil || o.String() != t.owner {
+			return pbt.Failf("C09/owner-getter", "GetOwner(%s) = %s (%v), model %s", t.symbol, o, err, t.owner)
+		}
+		if !k.HasToken(c.Ctx, t.symbol) || !k.HasToken(c.Ctx, t.minUnit) {
+			return pbt.Failf("C09/has-token", "HasToken denies token %s / %s", t.symbol, t.minUnit)
+		}
+		if len(t.oldOwners) > 0 {
+			m.cls["owner-query-after-transfer"] = true
+			if t.oldOwners[t.owner] {
+				m.cls["owner-query-after-transfer-back"] = true
+			}
+			if t.restored {
+				m.cls["owner-query-after-transfer-and-reimport"] = true
+			}
+		}
+	}
+	for _, name := range append(append([]string{}, c09Symbols...), c09MinUnits...) {
+		if m.bySym[name] == nil && m.byMin[name] == nil && k.HasToken(c.Ctx, name) {
+			return pbt.Failf("C09/has-token", "HasToken(%s) although no token has that symbol or min unit", name)
+		}
+	}
 	// burned tally
 	tb, err := k.TotalBurn(ctx, &v1.QueryTotalBurnRequest{})
 	if err != nil {
